@@ -1,9 +1,8 @@
 import TLVerif.Codec.Random
 import TLVerif.Codec.TL1Total
 /-!
-Lemmas about the random-filling model: whatever `fillTL1` returns is accepted by the TL1 writer
-(`fillTL1_writable`), and — on instance sets without dictionaries — is a value "as a reader produces it"
-(`fillTL1_normal`), so that the C01 round-trip theorem applies to it.
+Lemmas about the random-filling model: whatever `fillTL1` returns is accepted by the TL1 writer, bare and boxed
+(`fillTL1_writable`), under the decidable side conditions `Inst.fillOk`.
 -/
 namespace TLVerif.Codec
 open TLVerif.Prim TLVerif.Facts
